@@ -58,6 +58,8 @@ SpecStep(rec) ==
   \/ rec.name = "ManagerDone" /\ ManagerDone
   \/ rec.name = "Dropped" /\ Dropped(rec.arg)
   \/ rec.name = "Shutdown" /\ Shutdown
+  \/ rec.name = "SubmitSw" /\ SubmitSw(rec.arg, rec.c, rec.k)
+  \/ rec.name = "FetchOkSw" /\ FetchOkSw(rec.arg, rec.c, rec.k)
 
 \* the step is a step of the specification: same successor, replies written = replies received = replies the
 \* model predicts, publish hook = bus
@@ -69,22 +71,23 @@ Conform(rec) ==
 
 \* manifests that pass validation in this step, by the specification's Validate on the OBSERVED pre-state
 ValOf(rec) ==
-  IF rec.name = "Submit" /\ svc = "run" /\ mgr # "stopping"
-  THEN Validate(Eff([Target EXCEPT !.requests = Append(@, [r |-> nsub + 1, mf |-> rec.arg])])).val
-  ELSE IF rec.name = "FetchOk" /\ mgr = "run"
-  THEN Validate(Eff([Cur EXCEPT !.fetch = "idle", !.data = rec.arg])).val
-  ELSE <<>>
+  LET victim(M) == IF rec.k \in 1..Len(Victims(M)) THEN Victims(M)[rec.k] ELSE 0
+      MS == [Target EXCEPT !.requests = Append(@, [r |-> nsub + 1, mf |-> rec.arg])]
+      MF == [Cur EXCEPT !.fetch = "idle", !.data = rec.arg]
+  IN IF rec.name \in {"Submit", "SubmitSw"} /\ svc = "run" /\ mgr # "stopping" THEN ValidateV(Eff(MS), victim(MS)).val
+     ELSE IF rec.name \in {"FetchOk", "FetchOkSw"} /\ mgr = "run" THEN ValidateV(Eff(MF), victim(MF)).val
+     ELSE <<>>
 
 \* not a step of the specification: continue from what the implementation did
 Forced(rec) ==
   /\ ObsState(rec)
-  /\ nsub' = IF rec.name = "Submit" THEN nsub + 1 ELSE nsub
-  /\ sub' = IF rec.name = "Submit" THEN [sub EXCEPT ![nsub + 1] = rec.arg] ELSE sub
+  /\ nsub' = IF rec.name \in {"Submit", "SubmitSw"} THEN nsub + 1 ELSE nsub
+  /\ sub' = IF rec.name \in {"Submit", "SubmitSw"} THEN [sub EXCEPT ![nsub + 1] = rec.arg] ELSE sub
   /\ LET val == ValOf(rec) IN
        /\ validated' = validated \cup Range(val)
        /\ lastValid' = IF val # <<>> THEN Last(val) ELSE lastValid
   /\ cnt' = cnt
-  /\ act' = [name |-> rec.name, arg |-> rec.arg]
+  /\ act' = [name |-> rec.name, arg |-> rec.arg, c |-> rec.c, k |-> rec.k]
 
 -----------------------------------------------------------------------------
 (* Verdict: the property definitions of ManifestManager.tla on observed values, plus their counterparts on the   *)
@@ -95,6 +98,7 @@ HeldNext(rec) ==
   IF rec.name \in {"LeaseWon", "PreLease"} /\ svc = "run" /\ mgr # "stopping" THEN (IF mgr = "run" THEN held ELSE {}) \cup {rec.arg}
   ELSE IF rec.name = "LeaseRemoved" /\ mgr = "run" THEN held \ {rec.arg}
   ELSE IF rec.name \in {"DeploymentClosed", "Shutdown"} THEN {}
+  ELSE IF rec.name \in {"SubmitSw", "FetchOkSw"} /\ rec.c = 2 THEN held   \* (zombie manager: nothing is routed to it any more)
   ELSE IF rec.name = "Submit" /\ svc = "run" /\ mgr = "none" THEN {}
   ELSE held
 AnnounceToHeld == \A i \in 1..Len(ann) : ann[i].lease \in held
@@ -120,8 +124,8 @@ Reset ==
   /\ manifests' = <<>> /\ versions' = <<>>
   /\ nsub' = 0 /\ sub' = [r \in Reqs |-> 0] /\ replies' = EmptyR
   /\ ann' = <<>> /\ validated' = {} /\ lastValid' = 0
-  /\ cnt' = [lw |-> 0, rm |-> 0, upd |-> 0, ferr |-> 0, close |-> 0, drop |-> 0]
-  /\ act' = [name |-> "Init", arg |-> 0]
+  /\ cnt' = [lw |-> 0, rm |-> 0, upd |-> 0, ferr |-> 0, close |-> 0, drop |-> 0, sw |-> 0]
+  /\ act' = [name |-> "Init", arg |-> 0, c |-> 0, k |-> 0]
   /\ sends' = EmptyR /\ missing' = <<>> /\ held' = {}
   /\ UNCHANGED <<drift, viol>>
 
